@@ -15,7 +15,7 @@ from fractions import Fraction
 
 import numpy as np
 
-REPO_SRC = "/repo/src"
+REPO_SRC = os.environ.get("SYMX_REPO_SRC", "/repo/src")  # (selftest runs a scratch copy; checks use /repo)
 if hasattr(sys, "set_int_max_str_digits"):
     sys.set_int_max_str_digits(0)
 if REPO_SRC not in sys.path:
@@ -710,9 +710,10 @@ def main_check(prop_mod, tier, seed, jobs, only=None, verbose=False):
         wall_s=round(wall, 2),
         violations=len(seen),
     )
-    os.makedirs(os.path.join(VERIF, "evidence"), exist_ok=True)
-    with open(os.path.join(VERIF, "evidence", f"{prop.ID}.json"), "w") as f:
-        json.dump(ev, f, indent=1, default=str)
+    if not os.environ.get("SYMX_NO_EVIDENCE"):  # (set by the seeded-change tools: evidence is only written for /repo as it is)
+        os.makedirs(os.path.join(VERIF, "evidence"), exist_ok=True)
+        with open(os.path.join(VERIF, "evidence", f"{prop.ID}.json"), "w") as f:
+            json.dump(ev, f, indent=1, default=str)
     print(f"{prop.ID} {tier}: {len(cfgs)} configurations, {agg['paths']} paths, {agg['discharged']}/{agg['obligations']} "
           f"obligations proved, {agg['witness_ok']} witness replays, {len(seen)} violations, "
           f"{len(known_seen)} known findings, {len(errors)} inconclusive, {wall:.1f}s")
